@@ -155,4 +155,100 @@ theorem layout_refines_asm_scope_partial {num : Nat → Bytes → Nat} (hinj : N
             exact this
 
 
+/-! ### non-vacuity -/
+
+/-- a decidable form of `ElsOk` / `XferProject` -/
+def elsOkB (fs : Bytes → Option Bytes) (path : Bytes) (projB : List Bytes → Bytes → Bytes → Bool) (avail : List Bytes) :
+    List Bytes → List Element → Bool
+  | _, [] => true
+  | seen, el :: els =>
+    (if isGlobal el then (match globalName el with | some x => seen.contains x | none => false) else true) &&
+    (if isImport el then (match importName el with | some x => avail.contains x | none => false) else true) &&
+    (match incTarget fs path el with | some (p', d') => projB seen p' d' | none => true) &&
+    elsOkB fs path projB avail (xNames fs path el ++ seen) els
+
+def xferProjectB (fs : Bytes → Option Bytes) : Nat → List Bytes → Bytes → Bytes → Bool
+  | 0, _, _, _ => true
+  | fuel + 1, avail, path, data =>
+    match parseFile data with
+    | .ok (els, _) => elsOkB fs path (xferProjectB fs fuel) avail [] els
+    | .stop _ => true
+
+theorem elsOk_of_B (fs : Bytes → Option Bytes) (path : Bytes) (projB : List Bytes → Bytes → Bytes → Bool)
+    (proj : List Bytes → Bytes → Bytes → Prop) (hp : ∀ a p d, projB a p d = true → proj a p d) (avail : List Bytes) :
+    ∀ (els : List Element) (seen : List Bytes), elsOkB fs path projB avail seen els = true → ElsOk fs path proj avail seen els := by
+  intro els
+  induction els with
+  | nil => intro _ _; trivial
+  | cons el els ih =>
+    intro seen h
+    simp only [elsOkB, Bool.and_eq_true] at h
+    obtain ⟨⟨⟨h1, h2⟩, h3⟩, h4⟩ := h
+    refine ⟨fun hg => ?_, fun hm => ?_, fun p' d' ht => ?_, ih _ h4⟩
+    · rw [if_pos hg] at h1
+      cases hgn : globalName el with
+      | none => rw [hgn] at h1; cases h1
+      | some x => rw [hgn] at h1; exact ⟨x, rfl, by simpa using h1⟩
+    · rw [if_pos hm] at h2
+      cases hgn : importName el with
+      | none => rw [hgn] at h2; cases h2
+      | some x => rw [hgn] at h2; exact ⟨x, rfl, by simpa using h2⟩
+    · rw [ht] at h3; exact hp _ _ _ h3
+
+theorem xferProject_of_B (fs : Bytes → Option Bytes) : ∀ (fuel : Nat) (avail : List Bytes) (path data : Bytes),
+    xferProjectB fs fuel avail path data = true → XferProject fs fuel avail path data := by
+  intro fuel
+  induction fuel with
+  | zero => intro _ _ _ _; trivial
+  | succ fuel ih =>
+    intro avail path data h els perr hp
+    simp only [xferProjectB, hp] at h
+    exact elsOk_of_B fs path _ _ (fun a p d => ih a p d) avail els [] h
+
+/-- three files: `m` defines `k` and includes `i`; `i` imports `k` (DOWN), uses it, includes `j` and re-exports `j`'s `z` (UP);
+`j` imports `k` from `i` (down a second level), defines `z` and exports it; `m` uses `z` ABOVE and BELOW its `.include` -/
+def exXMain : Bytes := bytesOf ".addr 16;\n.const k, 5;\n.du16 z;\n.include \"i\";\n.du16 z;\n"
+def exXMid : Bytes := bytesOf ".import k;\n.du8 k;\n.include \"j\";\n.export z;\n"
+def exXLeaf : Bytes := bytesOf ".import k;\nz:\n.du8 k + 1;\n.export z;\n"
+def exXFs : Bytes → Option Bytes := fun p =>
+  if p = bytesOf "m" then some exXMain else if p = bytesOf "i" then some exXMid
+  else if p = bytesOf "j" then some exXLeaf else none
+
+set_option maxRecDepth 100000 in
+theorem exXProject_ok : XferProject exXFs maxDepth [] (bytesOf "m") exXMain :=
+  xferProject_of_B _ _ _ _ _ (by decide +kernel)
+
+set_option maxRecDepth 100000 in
+/-- `Asm.run` on the project: success, no diagnostic; `z` = 19 (the label in `j`) above and below the `.include` in `m`,
+`k` = 5 in `i`, `k + 1` = 6 in `j` -/
+theorem exXProject_run : (match run exXFs (bytesOf "m") with
+    | .done o => o.success && o.diags.isEmpty && o.image == [(16, [0x13, 0x00, 0x05, 0x06, 0x13, 0x00])]
+    | _ => false) = true := by decide +kernel
+
+/-- the hypotheses of `layout_refines_asm_scope_partial` hold of the project, so its conclusion does -/
+example : ∃ o, run exXFs (bytesOf "m") = .done o ∧ o.success = true ∧
+    ∃ (els : List Element) (perr : Option ParseErr) (p : List Layout.Stmt) (E : Layout.Env) (t : Table) (n : Nat)
+      (A : List (Bytes × Int)) (im' : Layout.Img),
+      parseFile exXMain = .ok (els, perr) ∧ XFlat exNum2 exXFs encoder E 0 1 (bytesOf "m") t 2 none els p n ∧
+      Layout.Ref.pass2 none [] (p ++ aliases (exNum2 0) (exNum2 1) A) = some im' ∧ ∀ a, Map.abs o.image a = im'.get a := by
+  have hr := exXProject_run
+  cases hrun : run exXFs (bytesOf "m") with
+  | done o =>
+    rw [hrun] at hr
+    simp only [Bool.and_eq_true] at hr
+    obtain ⟨els, perr, p, E, t, n, A, im', h1, _, h3, _, _, _, _, h8, h9, _⟩ :=
+      layout_refines_asm_scope_partial exNum2_inj exXFs (bytesOf "m") exXMain rfl exXProject_ok o hrun hr.1.1
+    exact ⟨o, rfl, hr.1.1, els, perr, p, E, t, n, A, im', h1, h3, h8, h9⟩
+  | noMain => rw [hrun] at hr; cases hr
+  | panic => rw [hrun] at hr; cases hr
+  | fuel => rw [hrun] at hr; cases hr
+  | loop => rw [hrun] at hr; cases hr
+
+/-- the flattened program of the project (main: `k` = 10, `z` = 11; `i`: `k` = 20, `z` = 21; `j`: `k` = 30, `z` = 31) with the
+import aliases (`20 := 10`, `30 := 20`) at the `.import` statements and the publication aliases (`21 := 31` behind `j`,
+`11 := 21` behind `i`), and its reference layout: the image `Asm.run` produces -/
+example : Layout.Ref.layout [.addr 16, .const 10 [] 5, .emit 2 [11] [0x13, 0x00], .const 20 [10] 5, .emit 1 [20] [0x05],
+        .const 30 [20] 5, .label 31, .emit 1 [30] [0x06], .const 21 [31] 19, .const 11 [21] 19, .emit 2 [11] [0x13, 0x00]] =
+      some [(20, 0x13), (21, 0x00), (19, 0x06), (18, 0x05), (16, 0x13), (17, 0x00)] := by rfl
+
 end Trion.Asm
